@@ -9,7 +9,8 @@ What is real: `Scheduler.aio_registerJob`, `aio_submit` (marker test, adoption p
 rules as `Disk` in lean/XpmVerif/Model/Restart.lean): job processes (wait for the run lock, test the marker,
 body, marker, exit), the run lock, `aio_run` (spawn + pid file as `commandline.py` l.300-303 writes it).
 
-Events:  ["sched", ev] (ev of schedeng) | ["proc", p, rmPid] | ["crash"] | ["crashAfterSpawn", j] | ["spawn", ident, code]
+Events:  ["sched", ev] (ev of schedeng) | ["proc", p, rmPid] | ["crash"] | ["crashAfterSpawn", j]
+         | ["crashInPrepare", j, "absent"|"broken"|"ready"] | ["spawn", ident, code]
 """
 import json
 import shutil
@@ -31,7 +32,7 @@ class SimDisk:
     def __init__(self, ws: Path, idents, done0=()):
         self.ws = ws
         self.idents = list(idents)
-        self.dirs = {i: {"lock": "free", "bodies": 0, "succ": 0, "fails": 0, "spawns": 0} for i in self.idents}
+        self.dirs = {i: {"lock": "free", "script": "absent", "bodies": 0, "succ": 0, "fails": 0, "spawns": 0} for i in self.idents}
         self.procs = []
         for i in done0:
             self.jobdir(i).mkdir(parents=True, exist_ok=True)
@@ -95,7 +96,7 @@ class SimDisk:
     def observe(self):
         return {
             "procs": [{"ident": p["ident"], "ph": p["ph"], "ok": p["ok"], "ran": p["ran"]} for p in self.procs],
-            "dirs": [{"ident": i, "done": self.done(i), "pid": self.pid(i), "lock": self.dirs[i]["lock"],
+            "dirs": [{"ident": i, "done": self.done(i), "pid": self.pid(i), "lock": self.dirs[i]["lock"], "script": self.dirs[i]["script"],
                       "bodies": self.dirs[i]["bodies"], "succ": self.dirs[i]["succ"], "fails": self.dirs[i]["fails"],
                       "spawns": self.dirs[i]["spawns"]} for i in self.idents],
         }
@@ -222,6 +223,7 @@ class RWorld(World):
                     return self._process
                 world.trace.append(("launch", self.idx))
                 self.launches += 1
+                disk.dirs[self.js["ident"]]["script"] = "ready"  # prepare(): script and params.json written from scratch
                 p = disk.spawn(self.js["ident"], self.js["code"])
                 self._process = RProcess(disk, p, True)
                 self._process.job = self
@@ -369,6 +371,12 @@ class Run:
             if job is not None and self.w.pc_lock_enter(j) and self.shared.disk.dirs[job.js["ident"]]["lock"] == "sched":
                 self.shared.disk.spawn(job.js["ident"], job.js["code"])
                 self.restart()
+        elif k == "crashInPrepare":
+            j = ev[1]
+            job = self.w.jobs.get(j)
+            if job is not None and self.w.pc_lock_enter(j) and self.shared.disk.dirs[job.js["ident"]]["lock"] == "sched":
+                self.shared.disk.dirs[job.js["ident"]]["script"] = ev[2]
+                self.restart()
         else:
             raise ValueError(ev)
 
@@ -420,7 +428,11 @@ def run_random(spec, rng, max_events=3000, max_crashes=2, crash_p=0.03):
                 # die inside aio_run if some job is there, else at this step
                 mids = [j for j in run.w.jobs if run.w.pc_lock_enter(j)
                         and run.shared.disk.dirs[run.w.jobs[j].js["ident"]]["lock"] == "sched"]
-                ev = ["crashAfterSpawn", rng.choice(mids)] if mids and rng.random() < 0.6 else ["crash"]
+                if mids and rng.random() < 0.7:
+                    ev = ["crashAfterSpawn", rng.choice(mids)] if rng.random() < 0.5 else \
+                        ["crashInPrepare", rng.choice(mids), rng.choice(["absent", "broken", "ready"])]
+                else:
+                    ev = ["crash"]
             elif r < crash_p + 0.02 and ch:
                 ev = rng.choice(ch)  # possibly a helper thread that cannot complete yet: a no-op on both sides
             else:
